@@ -1,13 +1,46 @@
 (** Canonical form of the values [struct.unpack] returns for what
     [struct.pack] was given (Python: bools given to integer codes come back as
-    ints, anything given to '?' comes back as bool, 's' pads/truncates). *)
+    ints, anything given to '?' comes back as bool, 's' pads/truncates, an int /
+    bool / finite float given to 'f' or 'd' comes back as the float it was rounded
+    to - here: as that float's bit pattern). *)
 From NX Require Export PyStruct.
+From NX Require Import Float Rn53.
 Open Scope Z_scope.
+
+(** the bit pattern struct.pack('f' / 'd') writes for a value that is not already a
+    bit pattern: float(z) for an int or bool ('f': then narrowed to single), the
+    correctly rounded float for a dyadic.  None: pack refuses (overflow / wrong type). *)
+Definition f32_bits (v : value) : option Z :=
+  match v with
+  | VDy n x => f32_encode n x
+  | VInt _ | VBool _ =>
+      match int_of_value v with
+      | Some z => match f64_of_int z with
+                  | Some _ => f32_encode (rn53 z) 0
+                  | None => None
+                  end
+      | None => None
+      end
+  | _ => None
+  end.
+
+Definition f64_bits (v : value) : option Z :=
+  match v with
+  | VDy n x => f64_encode n x
+  | VInt _ | VBool _ =>
+      match int_of_value v with
+      | Some z => f64_of_int z
+      | None => None
+      end
+  | _ => None
+  end.
 
 Definition canon_one (c : code) (v : value) : value :=
   match c with
   | Cbool => match v with VInt z => VBool (negb (z =? 0)) | _ => v end
-  | Cc | Cf | Cd | Cs | Cx => v
+  | Cf => match f32_bits v with Some b => VF32 (Z.to_N b) | None => v end
+  | Cd => match f64_bits v with Some b => VF64 (Z.to_N b) | None => v end
+  | Cc | Cs | Cx => v
   | _ => match v with VBool b => VInt (if b then 1 else 0) | _ => v end
   end.
 
